@@ -14,7 +14,7 @@ Quick == Tier = "quick"
 
 \* ---- the body family -----------------------------------------------------------------------
 \* B = outer: for (o = 0..1) { ENCL { INNER { if (j == 1) EXIT } } }   run N times at PLACE
-Inners == {"while", "dowhile", "for", "forin", "forof", "switch", "block", "none"}
+Inners == {"while", "dowhile", "for", "forin", "forof", "switch", "block", "none", "updates"}
 Exits  == {"none", "break", "continue", "break_outer", "continue_outer", "return", "throw", "throw_midexpr", "return_midexpr"}
 Encls  == {"none", "try_catch", "try_finally", "try_catch_finally", "in_catch", "in_finally", "finally_after_throw",
            "catch_rethrow_finally", "switch", "forin", "forof", "if",
@@ -22,6 +22,8 @@ Encls  == {"none", "try_catch", "try_finally", "try_catch_finally", "in_catch", 
            "finally_continue", "finally_break", "finally_continue_in_forin", "finally_return"}
 Overriding(e) == e \in {"finally_continue", "finally_break", "finally_continue_in_forin", "finally_return"}
 Places == {"inline", "func_stmt", "func_operand", "func_arg", "func_array", "callback", "getter", "ctor",
+           \* the N rounds run inside ONE activation of a function (of a closure whose counter belongs to the enclosing function)
+           "func_loop", "closure_loop",
            \* the exception leaves the script function that a native (or a call) is running and is caught outside it
            "cb_catch_outside", "getter_catch_outside", "valueof_catch_outside", "call_catch_outside", "sort_catch_outside",
            "func_catch_outside", "ctor_catch_outside"}
@@ -34,10 +36,13 @@ Valid(b) ==
   /\ (b.exit = "break" => b.inner # "none")                       \* needs something to break out of
   /\ (b.exit = "continue" => TRUE)                                 \* targets the innermost loop (INNER or outer)
   /\ (b.inner = "none" => b.exit \notin {"break"})
+  /\ (b.place \in {"func_loop", "closure_loop"} => b.exit \notin {"return", "return_midexpr"})      \* a return would end the rounds
   /\ (b.encl = "finally_return" => b.place \notin {"inline"} /\ ~CatchOutside(b.place))
   /\ (CatchOutside(b.place) => b.exit \in {"throw", "throw_midexpr"} /\ b.encl \in {"none", "try_finally", "forin", "switch", "in_catch", "finally_after_throw"})
 \* quick tier: every inner, exit, enclosure and place occurs, but not the full product
 QuickPick(b) ==
+  \/ b.inner = "updates" /\ b.encl \in {"none", "try_finally", "forin"} /\ b.place \in {"inline", "func_loop", "closure_loop", "callback"}
+  \/ b.place \in {"func_loop", "closure_loop"} /\ b.encl \in {"none", "try_catch", "forof", "switch"}
   \/ Overriding(b.encl) /\ b.inner \in {"forin", "while", "switch", "none"} /\ b.place \in {"inline", "func_operand", "func_array", "callback"}
   \/ b.encl = "none" /\ b.place \in {"inline", "func_operand", "func_array", "func_arg"}
   \/ CatchOutside(b.place) /\ b.inner \in {"forin", "while", "none"}
